@@ -26,6 +26,13 @@ CORRS = [
          env=dict(DRIVER_ENV, GODEBUG="asynctimerchan=0")),
     dict(harness="delayq", area="delayq", name="delayq-wake-async", gen_args=["-focus", "wake"],
          env=dict(DRIVER_ENV, GODEBUG="asynctimerchan=1")),
+    # evtrace: the park / wake / cancel structure action by action (fetch under the lock, close of the superseded generation,
+    # the signal arm receiving from exactly the fetched generation, the ctx arm at every blocking point, timer arm + re-lock +
+    # re-peek) of real concurrent executions replayed on Ekit.DelayQ.step (lean/Driver/Ev/DelayQ.lean)
+    dict(harness="evtrace", area="evtrace", name="evtrace-dq-wake-sync", evinst=True, gen_args=["-targets", "dq"],
+         env=dict(GODEBUG="asynctimerchan=0")),
+    dict(harness="evtrace", area="evtrace", name="evtrace-dq-wake-async", evinst=True, gen_args=["-targets", "dq"],
+         env=dict(GODEBUG="asynctimerchan=1")),
 ]
 
 TEXT = ("DelayQueue share (Ekit/Props/C09b.lean, same transition system as C08, any number of threads, both timer "
@@ -44,7 +51,8 @@ TEXT = ("DelayQueue share (Ekit/Props/C09b.lean, same transition system as C08, 
         "Dequeues deliver ALL elements exactly once, and an empty bounded queue accepts and delivers exactly cap elements "
         "(c09_drains_at_quiescence, c09_accepts_and_delivers_capacity). "
         "Tied to the code by the regenerated sync skeletons of every function of delay_queue.go and by timed concurrent "
-        "histories of the real queue (wake-up within 2 s of the enabling event, return within 2 s of the end of the call's context, no hang, capacity probe after cancellations; directed scenarios race the waiter against its waker and cancel the consumer that received a wake-up).")
+        "histories of the real queue (wake-up within 2 s of the enabling event, return within 2 s of the end of the call's context, no hang, capacity probe after cancellations; directed scenarios race the waiter against its waker and cancel the consumer that received a wake-up), and by synchronisation-event traces of an instrumented twin (harness/evinst, harness/evtrace target dq) "
+        "which the model's step function must accept label by label: the channel a parked call receives from is the generation it fetched under the lock, the channel a broadcast closes is the generation it superseded, the ctx arm is only taken once the context ended.")
 
 NOTE = (" DelayQueue share: wall-clock promptness, scheduler fairness and time.Timer accuracy are not expressible; proved is "
         "enabledness (c09_delay_promptness_partial) and completion of a woken call in the ABSENCE of interference (C09bRev), "
